@@ -181,6 +181,29 @@ static Obs observe(SP& s, bool withIters)
    return o;
 }
 
+#include "gen/C17_members.inc"
+
+static std::string diffMembers(const std::string& a, const std::string& b)
+{
+   // "name=value;name=value;..." with identical name order
+   std::string d;
+   size_t i = 0, j = 0;
+
+   while(i < a.size() && j < b.size())
+   {
+      size_t ei = a.find(';', i), ej = b.find(';', j);
+      std::string fa = a.substr(i, ei - i), fb = b.substr(j, ej - j);
+
+      if(fa != fb)
+         d += (d.empty() ? "" : ",") + fa.substr(0, fa.find('='));
+
+      i = ei + 1;
+      j = ej + 1;
+   }
+
+   return d.empty() ? "none" : d;
+}
+
 static std::string diff(const Obs& a, const Obs& b)
 {
    std::string d;
@@ -415,6 +438,42 @@ int main(int argc, char** argv)
             quiet(*b);
             Obs oa = observe(*a, false), ob = observe(*b, false);
             std::string eq = diff(oa, ob);
+            // every scalar member of the simplex solver (scraped from spxsolver.h) must have been copied
+            std::string mem = diffMembers(dumpSolverMembers(*a), dumpSolverMembers(*b));
+            // a copy must also BEHAVE like its source: solve a twin of the source (built by the same history) and a second
+            // copy of the source, both from a cleared basis, and compare everything including the iteration count
+            std::string twinDiff = "none";
+            {
+               std::unique_ptr<SP> a2(new SP());
+               quiet(*a2);
+
+               for(size_t k = 5; k < t.size(); k++) setParam(*a2, t[k]);
+
+               load(*a2, L);
+
+               if(point != "nosolve")
+                  a2->optimize();
+
+               if(point == "solved-mod" && a2->numCols() > 0)
+                  a2->changeLowerReal(0, a2->lowerReal(0) <= -infinity ? -8.0 : a2->lowerReal(0) - 1.0);
+
+               std::unique_ptr<SP> b2;
+
+               if(mode == "ctor")
+                  b2.reset(new SP(*a));
+               else
+               {
+                  b2.reset(new SP());
+                  *b2 = *a;
+               }
+
+               quiet(*b2);
+               a2->clearBasis();
+               a2->optimize();
+               b2->clearBasis();
+               b2->optimize();
+               twinDiff = diff(observe(*a2, true), observe(*b2, true));
+            }
             // mutate the copy, the source must not notice
             std::string indepSrc, indepCopy;
             {
@@ -454,8 +513,8 @@ int main(int argc, char** argv)
                else if(WIFSIGNALED(wst)) st = -1000 - WTERMSIG(wst);
             }
             // both sides solve to the same result when solved after the copy from equal states?
-            printf("COPY %s mode=%s point=%s mut=%s equal=%s source_unchanged=%s copy_unchanged=%s after_destroy_status=%d\n", t[1].c_str(), mode.c_str(),
-                   point.c_str(), mut.c_str(), eq.c_str(), indepSrc.c_str(), indepCopy.c_str(), st);
+            printf("COPY %s mode=%s point=%s mut=%s equal=%s members=%s solves_like_source=%s source_unchanged=%s copy_unchanged=%s after_destroy_status=%d\n",
+                   t[1].c_str(), mode.c_str(), point.c_str(), mut.c_str(), eq.c_str(), mem.c_str(), twinDiff.c_str(), indepSrc.c_str(), indepCopy.c_str(), st);
          }
          catch(const std::exception& e)
          {
